@@ -45,6 +45,9 @@ package config
 //@   assert_at[C15] NewPublicKey "paillier.NewPublicKey(p.N)": arg0 != nil && nbits(natval(arg0)) == 2048
 //@   assert_at[C15] New "Pedersen: pedersen.New(paillierPublic.Modulus(), p.S, p.T)": arg1 != nil && arg2 != nil
 //@   ensures[C15,C20] result == nil ==> (c.Threshold >= 0 && c.Threshold < len(c.Public) && indom(c.Public, c.ID))
+// (that a restored configuration satisfies cfgwf -- every party record complete -- needs a quantified invariant over
+// the map under construction, with a fresh record stored per iteration; the solvers return unknown on its
+// preservation within the budget, so it is not claimed: cfgwf stays a stated precondition of the start functions)
 
 // ---- signer-set validation (C20)
 //@ func ValidThreshold
